@@ -331,7 +331,14 @@ def r09c(model: Model, rr: RuleResult):
     on = cfg.node_for(opens[0])
     f2 = [(norm(e), pol) for e, pol in guard_facts(cfg, on, skip_abort_guards=True)]
     mode = opens[0].items[0].context_expr
-    mode_ok = isinstance(mode, ast.Call) and len(mode.args) > 1 and norm(mode.args[1]).strip("'\"") == "w"
+    # open(path, "w") or path.open("w") (mode positional or keyword)
+    marg = None
+    if isinstance(mode, ast.Call):
+        marg = kwarg(mode, "mode")
+        if marg is None:
+            pos = 0 if isinstance(mode.func, ast.Attribute) and mode.func.attr == "open" and "build_file" in norm(mode.func.value) else 1
+            marg = mode.args[pos] if len(mode.args) > pos else None
+    mode_ok = marg is not None and norm(marg).strip("'\"") == "w"
     if f2 == [("gen_ninja()", True)] and mode_ok:
         rr.ok("build.ninja is truncated and regenerated whenever gen_ninja() (no caching of a previous graph)")
     else:
